@@ -384,8 +384,15 @@ def _run_classic(case, entry, klass, ctx):  # noqa: C901
     version = R.proto_version(keys[used])
     uuid = _uuid(rng)
     cc_socu, cc_vu, beacon = _v32(rng), _v32(rng), _v32(rng)
-    sources = [_key_source(rng, x) for x in names]
     flag_ca = klass == "ele" and rng.random() < 0.35
+    if klass == "ele" and not flag_ca:
+        # the SRK table verifier refuses records with different flags: all sources CA certificates, or none
+        if rng.random() < 0.25:
+            sources = [(pki.path(x, "cert", core.pick(rng, ["pem", "der"])), True) for x in names]
+        else:
+            sources = [(pki.path(x, *core.pick(rng, [("pub", "pem"), ("pub", "der"), ("nonca", "pem")])), False) for x in names]
+    else:
+        sources = [_key_source(rng, x) for x in names]
     ca = [flag_ca or is_ca for _p, is_ca in sources] if klass == "ele" else False
     legacy = (not entry["ele"]) and entry["latest"] and rng.random() < 0.1
     cfg = {
